@@ -2,6 +2,7 @@ package checks
 
 import (
 	"fmt"
+	"strings"
 
 	"github.com/meshplus/bitxhub-model/pb"
 	"github.com/meshplus/bitxhub/verifharness/fix"
@@ -94,6 +95,7 @@ func init() {
 		}}
 	Registry["C07"] = func(c *mc.Ctx) {
 		c.RunSharded("c07")
+		c07UndoLog(c)
 		c.Set("distinct_nontrivial", c.Get("failed_receipts_checked"))
 		c.Set("rule", "product of pre-states {post-prelude, open proposal with one vote, open IBTP; audit off/on} x 35 failure-oriented probes (contract error after reads/writes, panics inside contracts incl. reflection arity/type errors, unknown method/contract/vm type, empty/garbage payload, rejected proof, wrong index, malformed ids, receipt needing an illegal transition, IBTP failing after begin, bad signature, balance below fee for transfer/BVM/IBTP, XVM failures, unauthorised governance calls) x positions {alone, first, middle, last, after a warm-up of valid txs on the same contracts}; each case = differential pair of replicas (block with / without the probe); non-trivial = probe receipt FAILED and the no-effect oracle evaluated; plus read-only execution of every probe")
 		c.Assume("gas price 50000; the allowed difference is exactly {sender account record, admin account records}")
@@ -101,5 +103,59 @@ func init() {
 			c.HarnessError("vacuous: no failed receipt")
 		}
 		fix.Cleanup()
+	}
+}
+
+// c07UndoLog: the mechanism behind "a failed transaction leaves no effect" is the
+// ledger's per-transaction undo log. BFS over write / delete / snapshot / revert /
+// transaction-boundary / commit sequences on the real StateLedger: after a revert every
+// read must equal the reference model restored to snapshot time, also when earlier
+// successful transactions of the same block deleted or rewrote the keys.
+func c07UndoLog(c *mc.Ctx) {
+	ops := []string{"set A a y", "commit", "del A a", "snap", "set A a x", "rev 0", "fin", "get A a", "add A a z", "set A ab x", "bal A 5"}
+	depth := 6
+	if !c.Quick() {
+		depth = 7
+		ops = append(ops, "del A ab", "rev 1", "code A c1", "reopen")
+	}
+	b := &mc.BFS{C: c, Name: "ledgermc-undo", MaxDepth: depth,
+		Init:    func() mc.Instance { return newSLInst() },
+		Enabled: func(in mc.Instance, d int) []string { return ops },
+		Apply:   func(in mc.Instance, op string, path []string) (bool, bool) { return in.(*slInst).apply(op), false },
+		Key:     func(in mc.Instance) string { return in.(*slInst).key() },
+		Check: func(x mc.Instance, path []string) {
+			in := x.(*slInst)
+			reverted := false
+			for _, op := range path {
+				if strings.HasPrefix(op, "rev") {
+					reverted = true
+				}
+			}
+			if !reverted {
+				return
+			}
+			c.Add("states_after_a_revert", 1)
+			seen := map[string]bool{}
+			for _, m := range append(slCompareReads(in.l, in.cur, []string{"A"}, ""), slCompareQueries(in.l, in.cur, []string{"A"}, "")...) {
+				if !seen[m[0]] && !(in.pending && strings.HasPrefix(m[0], "query")) {
+					seen[m[0]] = true
+					c.Report("C07|revert-does-not-restore|"+m[0], m[1]+" after "+joinOps(path), map[string]interface{}{"engine": "c07.ledgermc", "ops": path})
+				}
+			}
+		},
+	}
+	b.Run()
+}
+
+func init() {
+	Replayers["c07.ledgermc"] = func(c *mc.Ctx, r map[string]interface{}) {
+		in := newSLInst()
+		path := strList(r["ops"])
+		for _, op := range path {
+			in.apply(op)
+		}
+		for _, m := range slCompareReads(in.l, in.cur, []string{"A"}, "") {
+			c.Report("C07|revert-does-not-restore|"+m[0], m[1], map[string]interface{}{"engine": "c07.ledgermc", "ops": path})
+		}
 	}
 }
